@@ -280,7 +280,46 @@ def run_case(case):
         return check_pair(case["argv"], case["kwform"])
     if k == "docs":
         return check_docs()[0]
+    if k == "listen":
+        return check_listen(case.get("entries"), case.get("form", "kw"))
     raise C.CaseInvalid("kind")
+
+
+LISTEN_ENTRIES = ["127.0.0.1:9090", "127.0.0.1", "127.0.0.2:8081", "127.0.0.2", "127.0.0.1:8080", "127.0.0.3:65535"]
+
+
+def check_listen(entries, form):
+    """the listen option is a list of independent entries: Adjustments(listen="A B") binds exactly what listen="A" and listen="B"
+    bind, in that order (the meaning of an entry must not depend on its neighbours); the CLI form repeats --listen"""
+    if not isinstance(entries, list) or not (1 <= len(entries) <= 4) or any(e not in LISTEN_ENTRIES for e in entries) or form not in ("kw", "cli"):
+        raise C.CaseInvalid("listen")
+    fails = []
+
+    def pairs(adj):
+        return [(x[3][0], x[3][1]) for x in adj.listen]
+
+    try:
+        if form == "kw":
+            whole, err = try_adj({"listen": " ".join(entries)})
+        else:
+            kw, err = parse_cli(["--listen=" + e for e in entries])
+            whole, err = try_adj(kw) if kw is not None else (None, err)
+        singles = [try_adj({"listen": e}) for e in entries]
+    finally:
+        close_socks()
+    if whole is None or any(a is None for a, _e in singles):
+        if not (whole is None and any(a is None for a, _e in singles)):
+            fails.append({"sig": "C20/listen/refusal-differs", "detail": "listen=%r: %r, entry by entry: %r" % (entries, err, [e for _a, e in singles])})
+        return fails
+    want = []
+    for a, _e in singles:
+        for pr in pairs(a):
+            if pr not in want:
+                want.append(pr)
+    got = pairs(whole)
+    if got != want:
+        fails.append({"sig": "C20/listen/entries-not-independent", "detail": "listen=%r (%s form) binds %r; the entries one by one bind %r" % (entries, form, got, want)})
+    return fails
 
 
 def bind_subsets():
@@ -389,7 +428,7 @@ def cli_strategy():
 
 
 def jobs(tier, seed):
-    js = [{"kind": "bind"}, {"kind": "proxy"}, {"kind": "sockets"}, {"kind": "unknown"}, {"kind": "params"}, {"kind": "docs"}]
+    js = [{"kind": "bind"}, {"kind": "proxy"}, {"kind": "sockets"}, {"kind": "unknown"}, {"kind": "params"}, {"kind": "docs"}, {"kind": "listen"}]
     n = 1200 if tier == "quick" else 15000
     for sh in range(8):
         js.append({"kind": "hyp", "n": n, "seed": derive_seed(seed, "c20", sh)})
@@ -407,6 +446,14 @@ def run_job(job, col):
                         "proxy": "all subsets of the proxy group: trusted_proxy x count x 2^6 header subsets (list and string form) + unknown kinds",
                         "sockets": "all socket lists of length <= 3 over 7 socket kinds",
                         "unknown": "unknown option names"}[k])
+    elif k == "listen":
+        import itertools
+        for n in (1, 2, 3):
+            for combo in itertools.permutations(LISTEN_ENTRIES, n):
+                for form in ("kw", "cli"):
+                    case = {"kind": "listen", "entries": list(combo), "form": form}
+                    col.record(case, run_case(case), nontrivial=n >= 2, labels=("listen", "listen-portless" if any(":" not in e for e in combo) else "listen-ports"))
+        col.exhaustive("all ordered selections of <= 3 of 6 listen entries (with and without port), keyword and CLI form")
     elif k == "params":
         for name, argv, kwform in param_cases():
             case = {"kind": "pair", "argv": argv, "kwform": kwform}
